@@ -182,6 +182,35 @@ def layer_backward_case(rec, B, rng, ML, qubits, res, N):
             rec.check("ml.backward.refuses", got == "ValueError", case, True, expected="ValueError", observed=got)
 
 
+def layer_refusals(rec, B, rng, N):
+    """a layer without a record, a record of the wrong length, and an object that is not a state are refused (ValueError /
+    NotImplementedError as the layer documents) and leave the object alone."""
+    k = int(rng.integers(1, N + 1))
+    qubits = [int(q) for q in rng.choice(N, size=k, replace=False)]
+    tg, tp, _ = O.random_tableau(rng, N, r=0)
+    for what in ("no record", "short record", "long record", "not a state"):
+        ML = B.circuit.MeasureLayer(*qubits, N=N)
+        T = B.State(tg.copy(), tp.copy(), 0)
+        try:
+            if what == "no record":
+                ML.backward(T)
+            elif what == "short record":
+                ML.backward(T, measure_result=[1] * (k - 1))
+            elif what == "long record":
+                ML.backward(T, measure_result=[1] * (k + 1))
+            else:
+                ML.forward(B.PauliList(tg[:N].copy(), tp[:N].copy()))
+            got = "accepted"
+        except (ValueError, NotImplementedError) as e:
+            got = "refused"
+            rec.refusal("%s:%s" % (type(e).__name__, what))
+        except Exception as e:
+            got = type(e).__name__ if not getattr(rec, "lenient", False) else "refused"
+        lg, lp, lr = B.state(T)
+        rec.check("ml.refuses", got == "refused" and np.array_equal(lg, tg) and np.array_equal(lp, tp % 4) and lr == 0, [what, qubits, N], True,
+                  expected="refused, state untouched", observed=got)
+
+
 def run_layers(shard, rec, B):
     rng = gen.rng_for(rec)
     interp = env.mode() == "interp"
@@ -206,6 +235,8 @@ def run_layers(shard, rec, B):
         tg, tp, r = O.random_tableau(rng, N)
         qs = [int(x) for x in rng.permutation(N)[:int(rng.integers(1, N + 1))]]
         layer_case(rec, B, tg, tp, r, qs)
+        if t % 10 == 0:
+            layer_refusals(rec, B, rng, N)
 
 
 # ---------------------------------------------------------------- post-selection
